@@ -32,6 +32,28 @@ var families = map[string]func(r *rand.Rand, i int) *Program{
 	"eqprio":    genEqPrio,
 	"shrink":    genShrink,
 	"stale":     genStale,
+	"bind2":     genBind2,
+}
+
+// bind2: a persistent queue that already holds entries is bound to a worker that is already running
+// (possibly idle, its event loop asleep): the entries have to be processed without any further event.
+func genBind2(r *rand.Rand, i int) *Program {
+	g := &gen{r: r}
+	p := &Program{Kind: "plain", Conc: 1 + r.Intn(2), Queues: []string{qkind(r)}, WFYields: r.Intn(2)}
+	var t []Op
+	for j := 0; j < r.Intn(4); j++ {
+		t = append(t, Op{Op: "yield"})
+	}
+	if r.Intn(3) == 0 {
+		t = append(t, g.add(), Op{Op: "wuf"})
+	}
+	ks := []int{200, 201, 202}[:1+r.Intn(3)]
+	t = append(t, Op{Op: "bind", N: 2, Ks: ks}, Op{Op: "counts"})
+	p.Threads = [][]Op{t}
+	if r.Intn(3) == 0 {
+		p.Threads = append(p.Threads, []Op{{Op: "pause"}, {Op: "yield"}, {Op: "resume"}})
+	}
+	return p
 }
 
 // stale: the event loop of the previous run is parked in the middle of reserve() (after it loaded
